@@ -29,6 +29,8 @@ def activate():
             del sys.modules[name]
     if os.environ.get("VERIF_WEAK_HASH") == "1":
         _install_weak_hashes()
+    if os.environ.get("VERIF_FAST_CLOCK") == "1":
+        _install_fast_clock()
     try:
         import batchie  # noqa
     except Exception as e:  # pragma: no cover
@@ -50,6 +52,45 @@ def activate():
 
     warnings.filterwarnings("ignore")
     return batchie
+
+
+_clock = [False]
+
+
+def _install_fast_clock():
+    """(process-configuration sweep) the harness owns the clock: while code of the tree under test is the caller, every reading of
+    time.time / monotonic / perf_counter (and their _ns forms) is 61 seconds later than the previous one (on top of real time).
+    A computation is a function of its inputs, not of how long it takes: code that consults the clock for logging or progress
+    reporting is unaffected, code whose RESULT changes after "a minute" shows it within a few readings.  Callers outside the tree
+    (tqdm, hypothesis, the harness) get the real clock.  Installed before batchie is imported (from-imports bind the wrappers)."""
+    if _clock[0]:
+        return
+    _clock[0] = True
+    import time as _time
+
+    src = os.path.realpath(SRC) + os.sep
+    orch = os.path.realpath(ORCH)
+    jumps = [0]
+
+    def from_tree():
+        fn = sys._getframe(2).f_code.co_filename
+        return fn == orch or fn.startswith(src) or os.path.realpath(fn).startswith(src)
+
+    def wrap(orig, scale):
+        def fast(*a, **k):
+            r = orig(*a, **k)
+            if from_tree():
+                jumps[0] += 1
+                return r + type(r)(61 * jumps[0] * scale)
+            return r
+
+        fast.__name__ = getattr(orig, "__name__", "fast")
+        fast.__wrapped__ = orig
+        return fast
+
+    for n_, scale in (("time", 1), ("monotonic", 1), ("perf_counter", 1), ("time_ns", 10**9), ("monotonic_ns", 10**9), ("perf_counter_ns", 10**9)):
+        if hasattr(_time, n_):
+            setattr(_time, n_, wrap(getattr(_time, n_), scale))
 
 
 _weak = [False]
